@@ -120,7 +120,7 @@ CHECKS = {
     "C03": {
         "bin": "c03",
         "level": "exploration",
-        "quick": {"shards": 12, "budget_s": 75, "min_evaluations": 300},
+        "quick": {"shards": 12, "budget_s": 75, "min_evaluations": 100},
         "thorough": {"shards": 14, "budget_s": 900, "min_evaluations": 3000},
         "rule": (
             "evaluations = observations (RP walk after every repository "
@@ -237,7 +237,7 @@ CHECKS = {
     "C05": {
         "bin": "c05",
         "level": "exploration",
-        "quick": {"shards": 12, "budget_s": 70, "min_evaluations": 3000},
+        "quick": {"shards": 12, "budget_s": 70, "min_evaluations": 1000},
         "thorough": {"shards": 14, "budget_s": 900, "min_evaluations": 30000},
         "rule": (
             "evaluations = requests sent to the subject CA and judged: the "
@@ -350,7 +350,7 @@ CHECKS = {
     "C11": {
         "bin": "c11",
         "level": "fault_enumeration",
-        "quick": {"shards": 10, "budget_s": 60, "min_evaluations": 1500},
+        "quick": {"shards": 10, "budget_s": 60, "min_evaluations": 600},
         "thorough": {"shards": 15, "budget_s": 900, "min_evaluations": 20000},
         "rule": (
             "Publication histories (10-22 steps quick, 30-120 thorough; "
@@ -464,7 +464,7 @@ CHECKS = {
     "C13": {
         "bin": "c13",
         "level": "exploration",
-        "quick": {"shards": 12, "budget_s": 85, "min_evaluations": 25000},
+        "quick": {"shards": 12, "budget_s": 85, "min_evaluations": 10000},
         "thorough": {"shards": 12, "budget_s": 600, "min_evaluations": 300000},
         "rule": (
             "evaluations = requests judged (route x user x CA family x "
@@ -517,7 +517,7 @@ CHECKS = {
     "C07": {
         "bin": "c07",
         "level": "exploration",
-        "quick": {"shards": 12, "budget_s": 60, "min_evaluations": 500},
+        "quick": {"shards": 12, "budget_s": 60, "min_evaluations": 200},
         "thorough": {"shards": 14, "budget_s": 900, "min_evaluations": 10000},
         "rule": (
             "(a) toy aggregate whose state is the append-only list of "
@@ -590,7 +590,7 @@ CHECKS = {
     "C12": {
         "bin": "c12",
         "level": "exploration",
-        "quick": {"shards": 12, "budget_s": 150, "min_evaluations": 15000},
+        "quick": {"shards": 12, "budget_s": 150, "min_evaluations": 5000},
         "thorough": {"shards": 12, "budget_s": 400, "min_evaluations": 150000},
         "rule": (
             "evaluations = signed protocol messages handed to CaManager::"
@@ -705,7 +705,7 @@ CHECKS = {
     "C20": {
         "bin": "c20",
         "level": "exploration",
-        "quick": {"shards": 12, "budget_s": 90, "min_evaluations": 120000},
+        "quick": {"shards": 12, "budget_s": 90, "min_evaluations": 50000},
         "thorough": {"shards": 12, "budget_s": 600, "min_evaluations": 900000},
         "rule": (
             "evaluations = credentials judged (credential x transport x "
@@ -756,7 +756,7 @@ CHECKS = {
     "C18": {
         "bin": "c18",
         "level": "exploration",
-        "quick": {"shards": 8, "budget_s": 70, "min_evaluations": 100},
+        "quick": {"shards": 8, "budget_s": 70, "min_evaluations": 50},
         "thorough": {"shards": 14, "budget_s": 900, "min_evaluations": 2000},
         "rule": (
             "Rounds on the REAL thread pool (num_threads 4) and the REAL "
@@ -821,7 +821,7 @@ CHECKS = {
     "C06": {
         "bin": "c06",
         "level": "exploration",
-        "quick": {"shards": 12, "budget_s": 60, "min_evaluations": 3000},
+        "quick": {"shards": 12, "budget_s": 60, "min_evaluations": 2000},
         "thorough": {"shards": 14, "budget_s": 1100, "min_evaluations": 50000},
         "rule": (
             "evaluations = entity comparisons (JSON of one entity loaded in "
@@ -960,7 +960,7 @@ CHECKS = {
     "C08": {
         "bin": "c08",
         "level": "fault_enumeration",
-        "quick": {"shards": 19, "budget_s": 35, "min_evaluations": 150},
+        "quick": {"shards": 19, "budget_s": 35, "min_evaluations": 100},
         "thorough": {"shards": 19, "budget_s": 1500, "min_evaluations": 6000},
         "rule": (
             "19 (operation kind x state class) pairs on TA -> p -> c: ROA "
@@ -1035,7 +1035,7 @@ CHECKS = {
     "C14": {
         "bin": "c14",
         "level": "exploration",
-        "quick": {"shards": 12, "budget_s": 60, "min_evaluations": 1500},
+        "quick": {"shards": 12, "budget_s": 60, "min_evaluations": 1200},
         "thorough": {"shards": 14, "budget_s": 900, "min_evaluations": 20000},
         "rule": (
             "One world per scenario (TA -> {p, q}; p -> cur, stg, old; cur has "
@@ -1092,7 +1092,7 @@ CHECKS = {
     "C04": {
         "bin": "c04",
         "level": "exploration",
-        "quick": {"shards": 12, "budget_s": 70, "min_evaluations": 800},
+        "quick": {"shards": 12, "budget_s": 70, "min_evaluations": 250},
         "thorough": {"shards": 14, "budget_s": 1100, "min_evaluations": 15000},
         "rule": (
             "Bounded-exhaustive insertion orders: the roll of CA c (two "
